@@ -29,7 +29,7 @@ theorem lookup_loc_eq (L : Labels) (regs : List String) (f k : Nat) (name : Stri
         match fileGet L.file f name with
         | some v => .ok v
         | none =>
-          if regs.contains name then .error .unresolvedLabel
+          if isRegName regs name then .error .unresolvedLabel
           else match assocGet L.glob name with
             | some v => .ok v
             | none => .error .unresolvedLabel := rfl
@@ -39,7 +39,7 @@ theorem lookup_file_eq (L : Labels) (regs : List String) (f : Nat) (name : Strin
       match fileGet L.file f name with
       | some v => .ok v
       | none =>
-        if regs.contains name then .error .unresolvedLabel
+        if isRegName regs name then .error .unresolvedLabel
         else match assocGet L.glob name with
           | some v => .ok v
           | none => .error .unresolvedLabel := rfl
@@ -221,7 +221,7 @@ theorem lookup_eq (L : Labels) (regs : List String) (sc : Scope) (name : String)
         match fileGet L.file sc.fileId name with
         | some v => .ok v
         | none =>
-          if regs.contains name then .error .unresolvedLabel
+          if isRegName regs name then .error .unresolvedLabel
           else match assocGet L.glob name with
             | some v => .ok v
             | none => .error .unresolvedLabel := by
@@ -281,7 +281,7 @@ theorem set_eq (L : Labels) (sc : Scope) (name : String) (v : Int) :
 
 theorem lookup_error {L : Labels} {regs : List String} {sc name}
     (h1 : scGet L sc name = none) (h2 : fileGet L.file sc.fileId name = none)
-    (h3 : regs.contains name = true ∨ assocGet L.glob name = none) :
+    (h3 : isRegName regs name = true ∨ assocGet L.glob name = none) :
     L.lookup regs sc name = .error .unresolvedLabel := by
   rw [lookup_eq, h1, h2]
   rcases h3 with h3 | h3
